@@ -611,6 +611,7 @@ def f_DecodeRawTransaction : Stmt :=
   failIf (nz "dh.err") ApiErr.invalidTxHex ;;
   .call "mtx.SetBytes" ["drt.err"] [] ;;
   .ite (nz "drt.err") (Dt "err .Error" "drt.err" ;; fail ApiErr.invalidTxHex) .skip ;;
+  mark "deep" ;;
   .invoke "api/tx_service.go:APIServer.buildDecodeRawTxResponse" ;;
   failIf (nz "bd.err") ApiErr.rawTx ;;
   ok
@@ -618,11 +619,13 @@ def f_DecodeRawTransaction : Stmt :=
 def f_CreateRawTransaction_api : Stmt :=
   .invoke "api/util.go:checkLocktime" ;;
   ifR (nz "cl.err") (.set "out" (.v "cl.err")) ;;
-  .invoke "api/util.go:checkNotEmpty" ;;            -- in.Inputs
+  .set "empty.sel" (.k 1) ;;                        -- in.Inputs
+  .invoke "api/util.go:checkNotEmpty" ;;
   ifR (nz "cne.err") (.set "out" (.v "cne.err")) ;;
   -- isEmpty(in.Inputs) was false: at least one input
   .call "len(in.Inputs)" ["inputs"] [⟨[.z "empty"], [.ge "inputs" 1]⟩] ;;
-  .invoke "api/util.go:checkNotEmpty" ;;            -- in.Amounts
+  .set "empty.sel" (.k 2) ;;                        -- in.Amounts
+  .invoke "api/util.go:checkNotEmpty" ;;
   ifR (nz "cne.err") (.set "out" (.v "cne.err")) ;;
   .loop "cr.i" "inputs" [.ge "inputs" 1] (
     .invoke "api/util.go:checkTransactionIdLen" ;;
@@ -661,7 +664,6 @@ def f_CreateStakingTransaction_api : Stmt :=
   .set "addr.sel" (.k 2) ;;
   .invoke "api/util.go:checkWitnessAddress" ;;
   ifR (nz "cwa.err") (.set "out" (.v "cwa.err")) ;;
-  mark "deep" ;;
   .invoke "masswallet/wallet.go:WalletManager.CreateStakingTransaction" ;;
   ifR (nz "err") (failCvt "err" ApiErr.abnormalData) ;;
   .invoke "api/util.go:checkTxFeeLimit" ;;
@@ -669,6 +671,7 @@ def f_CreateStakingTransaction_api : Stmt :=
   ok
 
 def f_CreateBindingTransaction_api : Stmt :=
+  .set "empty.sel" (.k 3) ;;                        -- in.Outputs
   .invoke "api/util.go:checkNotEmpty" ;;
   ifR (nz "cne.err") (.set "out" (.v "cne.err")) ;;
   .call "len(in.Outputs)" ["in.Outputs"] [] ;;
@@ -688,11 +691,12 @@ def f_CreateBindingTransaction_api : Stmt :=
     .set "addr.sel" (.k 3) ;;
     .invoke "api/util.go:checkWitnessAddress" ;;
     ifR (nz "cwa.err") (.set "out" (.v "cwa.err")) ;;
+    .set "pbt.sel" (.k 1) ;;
     .invoke "api/util.go:parseBindingTarget" ;;
+    .set "pbt.sel" (.k 0) ;;
     ifR (nz "pbt.err") (.set "out" (.v "pbt.err")) ;;
     .invoke "api/util.go:checkParseAmount" ;;
     ifR (nz "cpa.err") (.set "out" (.v "cpa.err"))) ;;
-  mark "deep" ;;
   .invoke "masswallet/wallet.go:WalletManager.CreateBindingTransaction" ;;
   ifR (nz "err") (failCvt "err" ApiErr.abnormalData) ;;
   .invoke "api/util.go:checkTxFeeLimit" ;;
@@ -712,7 +716,6 @@ def f_CreatePoolPkCoinbaseTransaction : Stmt :=
     D "payload" "Method" ;;
     flag "payload.Method != BindPoolCoinbase" "pp.m" ;;
     failIf (nz "pp.m") ApiErr.invalidParameter) ;;
-  mark "deep" ;;
   -- checkWitnessAddress succeeded: `from` is the typed non-nil address
   .call "from is witAddr of a successful checkWitnessAddress" ["from"] (always [.nz "from"]) ;;
   D "from" "EncodeAddress" ;;
@@ -728,6 +731,7 @@ def f_CreatePoolPkCoinbaseTransaction : Stmt :=
 def f_AutoCreateTransaction : Stmt :=
   .invoke "api/util.go:checkLocktime" ;;
   ifR (nz "cl.err") (.set "out" (.v "cl.err")) ;;
+  .set "empty.sel" (.k 2) ;;
   .invoke "api/util.go:checkNotEmpty" ;;
   ifR (nz "cne.err") (.set "out" (.v "cne.err")) ;;
   .set "amounts" (.k 1) ;;
@@ -746,7 +750,6 @@ def f_AutoCreateTransaction : Stmt :=
   .ite (nz "cs.from") (.set "addr.sel" (.k 1) ;; .invoke "api/util.go:checkWitnessAddress" ;; ifR (nz "cwa.err") (.set "out" (.v "cwa.err"))) .skip ;;
   flag "len(changeAddr) > 0" "cs.change" ;;
   .ite (nz "cs.change") (.set "addr.sel" (.k 4) ;; .invoke "api/util.go:checkWitnessAddress" ;; ifR (nz "cwa.err") (.set "out" (.v "cwa.err"))) .skip ;;
-  mark "deep" ;;
   .invoke "masswallet/wallet.go:WalletManager.AutoCreateRawTransaction" ;;
   ifR (nz "err") (failCvt "err" ApiErr.abnormalData) ;;
   .invoke "api/util.go:checkTxFeeLimit" ;;
@@ -764,6 +767,7 @@ def f_getEstimateStakingAddress : Stmt :=
   D "esAddr" "EncodeAddress"
 
 def f_GetTransactionFee : Stmt :=
+  .set "empty.sel" (.k 2) ;;
   .invoke "api/util.go:checkNotEmpty" ;;
   ifR (nz "cne.err") (.set "out" (.v "cne.err")) ;;
   .invoke "masswallet/wallet.go:WalletManager.CurrentWallet" ;;
@@ -781,7 +785,6 @@ def f_GetTransactionFee : Stmt :=
         ifR (nz "cwa.err") (.set "out" (.v "cwa.err")) ;;
         .invoke "api/util.go:checkParseAmount" ;;
         ifR (nz "cpa.err") (.set "out" (.v "cpa.err"))) ;;
-      mark "deep" ;;
       .invoke "masswallet/tx.go:WalletManager.EstimateBindingTxFee" ;;
       ifR (nz "err") (failCvt "err" ApiErr.abnormalData))
     (
@@ -790,7 +793,6 @@ def f_GetTransactionFee : Stmt :=
       .loop "gtf.j" "in.Amounts" [] (
         .invoke "api/util.go:checkParseAmount" ;;
         ifR (nz "cpa.err") (.set "out" (.v "cpa.err"))) ;;
-      mark "deep" ;;
       .invoke "masswallet/tx.go:WalletManager.EstimateStakingTxFee" ;;
       ifR (nz "err") (failCvt "err" ApiErr.abnormalData)))
   (
@@ -1020,7 +1022,7 @@ def f_UseWallet : Stmt :=
   ifR (isz "ready") (.set "err" (.k E.walletUnready)) ;;
   .call "w.ksmgr.UseKeystoreForWallet" ["err"] [] ;;
   ifR (nz "err") .skip ;;
-  .call "w.ksmgr.CurrentKeystore()" ["am"] [] ;;
+  .call "w.ksmgr.CurrentKeystore() after UseKeystoreForWallet" ["am"] [] ;;
   -- `am == nil || am.Name() != name`
   .ite (isz "am") (.set "err" (.k E.other) ;; .ret) (
     D "am" "Name" ;;
@@ -1553,6 +1555,7 @@ def f_messageToHex : Stmt := .call "msg.Encode" ["err"] []
 def estimateBody (outs : Stmt) : Stmt :=
   .invoke "masswallet/common.go:WalletManager.prepareFromAddresses" ;;
   ifR (nz "err") .skip ;;
+  mark "deep" ;;
   outs ;;
   .invoke "masswallet/common.go:WalletManager.autoConstructTxInAndChangeTxOut" ;;
   ifR (nz "err") .skip ;;
@@ -1804,6 +1807,7 @@ def f_GetTxHistory : Stmt :=
     ifR (nz "err") .skip ;;
     flag "len(scripts) == 0" "gth.none" ;;
     ifR (nz "gth.none") (.set "err" (.k 0))) ;;
+  mark "deep" ;;
   .call "w.chainFetcher.NewestSha" ["err"] [] ;;
   ifR (nz "err") .skip ;;
   .set "rTxLimit.Data" (.k 1) ;;
